@@ -272,7 +272,7 @@ pub fn model_conn(reqs: &[Req], cfg: &ServerCfg) -> ConnExpect {
                 headers: r.expected_headers(),
             });
             match &r.plan.on_ready {
-                OnReady::Respond => {
+                OnReady::Respond | OnReady::RespondKeepingClone => {
                     e.resps.push(plan_resp(&r.plan.resp));
                     let c = r.plan.resp.code;
                     !(unknown_len || (400..600).contains(&c) || c / 100 == 1)
